@@ -181,6 +181,7 @@ type Exec struct {
 	fnObjs    map[string]*types.Func
 	heapGo    map[string]types.Type
 	ixSeen    map[string]bool
+	typedKeys map[string]bool
 	inGoal    int
 	goalIx    []string
 	topTargets []modTarget
@@ -231,6 +232,16 @@ func (ex *Exec) oblige(st *State, kind string, props []string, goal, desc string
 func (ex *Exec) heapGet(st *State, key string, s *Sort, elemGo ...types.Type) string {
 	if len(elemGo) > 0 && elemGo[0] != nil && ex.heapGo[key] == nil {
 		ex.heapGo[key] = elemGo[0]
+		// the entry symbol may already exist without its typing axiom: add it now
+		n0 := sym("H0_" + key)
+		if ex.w.declared[n0] && !ex.typedKeys[key] {
+			if ax := ex.heapTyping(n0, key, s, sym("H0_alloc"), sym("H0_arralloc")); ax != "" {
+				ex.w.declConst(sym("H0_alloc"), ex.w.setSort(sRef))
+				ex.w.declConst(sym("H0_arralloc"), ex.w.setSort(sArrId))
+				ex.w.axioms = append(ex.w.axioms, ax)
+				ex.typedKeys[key] = true
+			}
+		}
 	}
 	if v, ok := st.heap[key]; ok {
 		return v
@@ -245,6 +256,7 @@ func (ex *Exec) heapGet(st *State, key string, s *Sort, elemGo ...types.Type) st
 			ex.w.declConst(sym("H0_alloc"), ex.w.setSort(sRef))
 			ex.w.declConst(sym("H0_arralloc"), ex.w.setSort(sArrId))
 			ex.w.axioms = append(ex.w.axioms, ax)
+			ex.typedKeys[key] = true
 		}
 	}
 	st.heap[key] = n
@@ -339,8 +351,13 @@ func refLike(t types.Type) bool {
 	if t == nil {
 		return false
 	}
+	if _, isTP := types.Unalias(t).(*types.TypeParam); isTP {
+		return false
+	}
 	switch types.Unalias(t).Underlying().(type) {
-	case *types.Pointer, *types.Map, *types.Chan:
+	case *types.Pointer, *types.Map, *types.Chan, *types.Interface, *types.Signature:
+		// interface and function values are references to objects that exist (boxed values and
+		// package-level functions are regarded as objects that have always existed)
 		return true
 	}
 	return false
